@@ -22,6 +22,20 @@ def handle : List String → Verdict
         tags := [kind] ++ (if disguised then ["ws-disguised-scheme"] else []) ++ (if sch.isSome then ["has-scheme"] else []),
         sig := s!"url;{kind};scheme={(sch.map fun b => String.ofList (b.map fun c => Char.ofNat c.toNat)).getD "none"}" }
     | _, _ => .badOp
+  | ["typing", shapeH, exprH, _srcH, codeH] =>
+    match hexField shapeH, hexField exprH, hexField codeH with
+    | some shape, some expr, some code =>
+      -- " templ.SafeURL = " ++ expr ++ "\n"   and   "WriteString(templ.EscapeString(string("
+      let typed := Bytes.countInfix (Bytes.ofString " templ.SafeURL = " ++ expr ++ [10]) code
+      let joined := Bytes.countInfix (Bytes.ofString "templ.JoinStringErrs(" ++ expr ++ [41]) code
+      let written := Bytes.countInfix (Bytes.ofString "_Buffer.WriteString(templ.EscapeString(string(templ_7745c5c3_Var") code
+      let shapeS := String.ofList (shape.map fun c => Char.ofNat c.toNat)
+      let expected := if (Bytes.hasInfix (Bytes.ofString "then-else") shape) then 2 else 1
+      let ok := typed == expected && joined == 0 && written == expected
+      { predfail := if ok then none else
+          some s!"href/action expression not routed through templ.SafeURL: typed={typed} (want {expected}) viaJoinStringErrs={joined} escapedWrites={written}",
+        nontrivial := true, tags := ["typing:" ++ shapeS], sig := s!"typing;{shapeS}" }
+    | _, _, _ => .badOp
   | _ => .badOp
 
 end TemplVerif.Drive.C04
